@@ -79,6 +79,7 @@ def _text_pipeline(cm, f, start_state, only_after_empty_guard=False):
     facts["where"] = cm.where(node)
     subj = ats[3] if len(ats) > 3 else kws.get("subject")
     labs = ats[4] if len(ats) > 4 else kws.get("labels")
+    subj = _sub_as_join(subj)
     facts["subject_term"], facts["labels_term"] = subj, labs
     # labels
     if isinstance(labs, tuple) and labs and labs[0] == "call" and labs[2]:
@@ -124,6 +125,21 @@ def _text_pipeline(cm, f, start_state, only_after_empty_guard=False):
         if name == "_match_regex" and cats:
             facts["matcher_on"] = st_.text_state(cats[0])
     return facts
+
+
+def _sub_as_join(t):
+    """re.sub(P, SEP, x) written for SEP.join(re.split(P, x)): the same string whenever P has no
+    capture group (split would return the captures too) and cannot match the empty string"""
+    if isinstance(t, tuple) and len(t) >= 5 and t[0] == "sub" and isinstance(t[3], str) and t[3] != "":
+        try:
+            P = e2.parse(t[1], version1=bool(t[2]))
+            plain = not any(isinstance(n_, e2.Group) for n_ in e2.walk(P.root)) \
+                and not e2.nullable(P.root, P)
+        except Exception:
+            plain = False
+        if plain:
+            return ("join", t[3], ("resplit", t[1], t[4], t[-1]))
+    return t
 
 
 def _pattern_dfa(text, alphabet, prefix_only):
